@@ -4,7 +4,7 @@ import fsm_common as fc
 from common import diff_run
 
 LEVEL = "proof"
-RULE = ("the C10 op scripts with more close/reopen/clear/release traffic; after every operation the free-extent tree "
+RULE = ("the C10 op scripts (modes mixed / solid / aligned, see C10) with more close/reopen/clear/release traffic; after every operation the free-extent tree "
         "(in-order walk of the AVL tree), lfbkoff/lfbklen and the bitmap of the implementation are compared with the "
         "model and the oracle checks tree = maximal zero runs of the bitmap, set bits = header + bitmap + live regions, "
         "file size after close, state after reopen/clear; plus direct queries of _fsm_find_next_set_bit / "
